@@ -1,6 +1,7 @@
 import P2P.Model.Pka
 import P2P.Model.State
 import P2P.Gen.FFKeys
+import P2P.Proofs.TextLemmas
 import Mathlib.Order.Defs.LinearOrder
 import Mathlib.Order.Basic
 
@@ -52,34 +53,153 @@ def allCellsSupported : Bool :=
       | .patch p => hasResidue ff (nameAfter rn (p = str "NEUTRAL-NTERM") (p = str "NEUTRAL-CTERM") p)
       | .warn => true))))
 
+/-! ### helpers: the decision tree as a function of the Boolean comparisons -/
+
+/-- the side-chain branch of `pkaStep` as a function of the Boolean `b = lt ph v` -/
+def sideB (ff resname : Str) (isN isC : Bool) (b : Bool) : List Action :=
+  let others := ["amber", "charmm", "tyl06", "peoepb", "swanson"]
+  let ats := ["amber", "tyl06", "swanson"]
+  if resname = str "ARG" && !b then
+    (if ff = str "parse" then [.patch (str "AR0"), .warn] else [.warn])
+  else if resname = str "ASP" && b then
+    (if isC && isIn ff ats then [.warn] else if isN && isIn ff ats then [.warn] else [.patch (str "ASH")])
+  else if resname = str "CYS" && !b then
+    (if isIn ff ["charmm", "peoepb"] then [.warn]
+     else if isIn ff ats && isC then [.warn]
+     else if isIn ff ats && isN then [.warn]
+     else [.patch (str "CYM")])
+  else if resname = str "GLU" && b then
+    (if ff = str "peoepb" then [.warn]
+     else if isC && isIn ff ats then [.warn] else if isN && isIn ff ats then [.warn] else [.patch (str "GLH")])
+  else if resname = str "HIS" && b then [.patch (str "HIP")]
+  else if resname = str "LYS" && !b then
+    (if isIn ff ["charmm", "peoepb"] then [.warn]
+     else if isIn ff ats && isC then [.warn]
+     else if isIn ff ats && isN then [.warn]
+     else [.patch (str "LYN")])
+  else if resname = str "TYR" && !b then
+    (if isIn ff others then [.warn] else [.patch (str "TYM")])
+  else []
+
+theorem pkaStep_side {α : Type} (lt : α → α → Bool) (ff rn : Str) (isN isC : Bool) (ph v : α) :
+    pkaStep lt ff rn isN isC ph none none (some v) = sideB ff rn isN isC (lt ph v) := by
+  cases isN <;> cases isC <;> rfl
+
+theorem pkaStep_none {α : Type} (lt : α → α → Bool) (ff rn : Str) (isN isC : Bool) (ph : α) :
+    pkaStep lt ff rn isN isC ph none none none = [] := by
+  cases isN <;> cases isC <;> rfl
+
+def Good (l : List Action) : Prop :=
+  l = [] ∨ l = [.warn] ∨ (∃ p, l = [.patch p]) ∨ l = [.patch (str "AR0"), .warn]
+
+theorem good_ite {c : Prop} [Decidable c] {a b : List Action} (ha : Good a) (hb : Good b) :
+    Good (if c then a else b) := by split <;> assumption
+theorem good_nil : Good [] := .inl rfl
+theorem good_warn : Good [.warn] := .inr (.inl rfl)
+theorem good_patch (p : Str) : Good [.patch p] := .inr (.inr (.inl ⟨p, rfl⟩))
+theorem good_ar0 : Good [.patch (str "AR0"), .warn] := .inr (.inr (.inr rfl))
+
+theorem good_sideB (ff rn : Str) (isN isC b : Bool) : Good (sideB ff rn isN isC b) := by
+  unfold sideB
+  repeat (first | exact good_nil | exact good_warn | exact good_patch _ | exact good_ar0 | apply good_ite)
+
 theorem one_decision_core {α : Type} (lt : α → α → Bool) (ff rn : Str) (isN isC : Bool) (ph : α) (v : Option α) :
     (pkaStep lt ff rn isN isC ph none none v = [] ∨ pkaStep lt ff rn isN isC ph none none v = [.warn] ∨
      (∃ p, pkaStep lt ff rn isN isC ph none none v = [.patch p]) ∨
      pkaStep lt ff rn isN isC ph none none v = [.patch (str "AR0"), .warn]) := by
-  sorry
+  cases v with
+  | none => rw [pkaStep_none]; exact good_nil
+  | some v => rw [pkaStep_side]; exact good_sideB ff rn isN isC (lt ph v)
+
+theorem sideB_step (ff rn : Str) (isN isC : Bool) :
+    sideCharge rn (sideB ff rn isN isC false) ≤ sideCharge rn (sideB ff rn isN isC true) := by
+  by_cases h1 : rn = str "ARG"
+  · subst h1; simp [sideB, sideCharge, str]; split_ifs <;> omega
+  by_cases h2 : rn = str "ASP"
+  · subst h2; simp [sideB, sideCharge, str]; split_ifs <;> omega
+  by_cases h3 : rn = str "CYS"
+  · subst h3; simp [sideB, sideCharge, str]; split_ifs <;> omega
+  by_cases h4 : rn = str "GLU"
+  · subst h4; simp [sideB, sideCharge, str]; split_ifs <;> omega
+  by_cases h5 : rn = str "HIS"
+  · subst h5; simp [sideB, sideCharge, str]
+  by_cases h6 : rn = str "LYS"
+  · subst h6; simp [sideB, sideCharge, str]; split_ifs <;> omega
+  by_cases h7 : rn = str "TYR"
+  · subst h7; simp [sideB, sideCharge, str]; split_ifs <;> omega
+  simp [sideCharge, h1, h2, h3, h4, h5, h6, h7]
 
 theorem group_charge_antitone_core {α : Type} [LinearOrder α] (ff rn : Str) (isN isC : Bool) (v : α) (ph₁ ph₂ : α)
     (h : ph₁ ≤ ph₂) :
     sideCharge rn (pkaStep (fun a b => decide (a < b)) ff rn isN isC ph₂ none none (some v)) ≤
     sideCharge rn (pkaStep (fun a b => decide (a < b)) ff rn isN isC ph₁ none none (some v)) := by
-  sorry
+  rw [pkaStep_side, pkaStep_side]
+  by_cases h2 : ph₂ < v
+  · have h1 : ph₁ < v := lt_of_le_of_lt h h2
+    simp only [h1, h2, decide_true]; exact Int.le_refl _
+  · by_cases h1 : ph₁ < v
+    · simp only [h1, h2, decide_true, decide_false]
+      exact sideB_step ff rn isN isC
+    · simp only [h1, h2, decide_false]; exact Int.le_refl _
+
+/-- the two terminus branches of `pkaStep` as a function of `bN = lt ph vN`, `bC = lt ph vC` -/
+def termB (ff : Str) (bN bC : Bool) : List Action :=
+  let others := ["amber", "charmm", "tyl06", "peoepb", "swanson"]
+  (if !bN then (if isIn ff others then [Action.warn] else [.patch (str "NEUTRAL-NTERM")]) else []) ++
+  (if bC then (if isIn ff others then [Action.warn] else [.patch (str "NEUTRAL-CTERM")]) else [])
+
+theorem pkaStep_term {α : Type} (lt : α → α → Bool) (ff rn : Str) (ph vN vC : α) :
+    pkaStep lt ff rn true true ph (some vN) (some vC) none = termB ff (lt ph vN) (lt ph vC) := by
+  simp [pkaStep, termB]
+
+theorem termB_le (ff : Str) (a₁ a₂ c₁ c₂ : Bool) (ha : a₂ = true → a₁ = true) (hc : c₂ = true → c₁ = true) :
+    terminiCharge (termB ff a₂ c₂) ≤ terminiCharge (termB ff a₁ c₁) := by
+  by_cases hf : isIn ff ["amber", "charmm", "tyl06", "peoepb", "swanson"] = true <;>
+  cases a₁ <;> cases a₂ <;> cases c₁ <;> cases c₂ <;> simp at ha hc <;>
+    simp [termB, terminiCharge, str, hf]
 
 theorem termini_charge_antitone_core {α : Type} [LinearOrder α] (ff rn : Str) (vN vC : α) (ph₁ ph₂ : α)
     (h : ph₁ ≤ ph₂) :
     terminiCharge (pkaStep (fun a b => decide (a < b)) ff rn true true ph₂ (some vN) (some vC) none) ≤
     terminiCharge (pkaStep (fun a b => decide (a < b)) ff rn true true ph₁ (some vN) (some vC) none) := by
-  sorry
+  rw [pkaStep_term, pkaStep_term]
+  apply termB_le
+  · simp only [decide_eq_true_eq]; exact fun h2 => lt_of_le_of_lt h h2
+  · simp only [decide_eq_true_eq]; exact fun h2 => lt_of_le_of_lt h h2
 
 theorem total_charge_antitone_core {α : Type} [LinearOrder α] (ff : Str) (groups : List (Str × Bool × Bool × α))
     (ph₁ ph₂ : α) (h : ph₁ ≤ ph₂) :
     (groups.map (fun g => sideCharge g.1 (pkaStep (fun a b => decide (a < b)) ff g.1 g.2.1 g.2.2.1 ph₂ none none (some g.2.2.2)))).sum ≤
     (groups.map (fun g => sideCharge g.1 (pkaStep (fun a b => decide (a < b)) ff g.1 g.2.1 g.2.2.1 ph₁ none none (some g.2.2.2)))).sum := by
-  sorry
+  induction groups with
+  | nil => simp
+  | cons g gs ih =>
+    simp only [List.map_cons, List.sum_cons]
+    exact Int.add_le_add (group_charge_antitone_core ff g.1 g.2.1 g.2.2.1 g.2.2.2 ph₁ ph₂ h) ih
+
+open P2P.Proofs.Text in
+theorem strip_key (rn ch mid : Str) (hrn : rn ≠ [] ∧ rn.all (fun c => !isWs c) = true)
+    (hch : ch ≠ [] ∧ ch.all (fun c => !isWs c) = true) :
+    strip (rn ++ mid ++ ch) = rn ++ mid ++ ch := by
+  obtain ⟨c, rn', rfl⟩ := List.exists_cons_of_ne_nil hrn.1
+  have hc : isWs c = false := (noWs_cons.mp ((noWs_iff_all _).mpr hrn.2)).1
+  have hd : isWs (ch.getLast hch.1) = false :=
+    (noWs_iff_all _).mpr hch.2 _ (List.getLast_mem hch.1)
+  rw [strip, List.cons_append, List.cons_append, lstrip_cons hc]
+  conv => lhs; rw [← List.dropLast_concat_getLast hch.1]
+  rw [← List.cons_append, ← List.cons_append, ← List.append_assoc, rstrip_concat hd,
+    List.append_assoc, List.dropLast_concat_getLast hch.1]
+  rfl
 
 theorem side_keys_reach_groups_core {α : Type} (rn ch : Str) (num : Int) (v : α) (label : Str)
     (hl : rn.isPrefixOf label = true) (hrn : rn ≠ [] ∧ rn.all (fun c => !isWs c) = true)
     (hch : ch ≠ [] ∧ ch.all (fun c => !isWs c) = true) :
     (pkaDict [⟨rn, num, ch, label, v⟩]).map (·.1) = [keyS rn num ch] := by
-  sorry
+  have hk : keyS rn num ch = rn ++ [' '] ++ intStr num ++ [' '] ++ ch := by
+    have := strip_key rn ch ([' '] ++ intStr num ++ [' ']) hrn hch
+    simpa [keyS, List.append_assoc] using this
+  have hl' : rn <+: label := List.isPrefixOf_iff_prefix.mp hl
+  rw [hk]
+  simp [pkaDict, hl']
 
 end P2P.Proofs.Pka
